@@ -138,6 +138,13 @@ class Model:
             row = delta[i % len(delta)]
             for f in range(self.nf):
                 self.cur[i][f] = max(0, self.cur[i][f] + row[f])
+            # kernel/sched/cputime.c account_guest_time(): time spent running
+            # a guest is added to user (nice) AND to guest (guest_nice), so a
+            # CPU's guest share never grows by more than its user share
+            if self.nf >= 9 and row[8] > 0:
+                self.cur[i][0] += row[8]
+            if self.nf >= 10 and row[9] > 0:
+                self.cur[i][1] += row[9]
 
     def agg(self):
         return [sum(c[f] for c in self.cur) + self.skew for f in range(self.nf)]
